@@ -94,12 +94,15 @@ def main():
             lowfn = chain[0] + "low"
         elif len(lv) <= 1 and lowfn not in low:
             lowfn = "-"   # ground state only: no de-excitation needed
+        # every published form of the name: the README's short form, its long form ("Pb214 (for Pb214+Po214)") and the list-file form
+        forms = sorted({name} | ({ann} if ann else set()) | {l for l in lis_dbd if l.split("+")[0] == name})
         for (idx, spin, e) in (lv or [(0, "0+", 0.0)]):
             for mode in (1, 3, 7, 11, 12, 20):
                 if t and genmon.rule_accepts(table, name, idx, mode):
                     # the level energy (keV) the de-excitation routine must be entered with: from the reference table (itself
                     # cross-checked with the README level list by C03), never from the code under test
-                    lines.append("D %s %d %d %d %s %s" % (name, idx, mode, int(round(t["levels"][idx])), lowfn, " ".join(chain)))
+                    for published in forms:
+                        lines.append("D %s %d %d %d %s %s" % (published, idx, mode, int(round(t["levels"][idx])), lowfn, " ".join(chain)))
                     break
     exe = build.harness("plain", "c05_dispatch", ["c05_dispatch.cc"], extra_flags="-I" + gen_dir)
     spec = tempfile.NamedTemporaryFile("w", suffix=".spec", delete=False, dir=bdir)
